@@ -445,14 +445,16 @@ class Bin(Factory, Container):
 
         else:
             q = np.array(q, dtype=np.float64)
-            belowhigh = q < self.high
+            inrange = np.logical_and(q >= self.low, q < self.high)
             np.subtract(q, self.low, q)
             np.multiply(q, self.num, q)
             np.divide(q, self.high - self.low, q)
             np.floor(q, q)
             q = np.array(q, dtype=int)
-            # rounding can make the quotient reach num for a value just below high: it belongs to the last bin
-            q[belowhigh & (q >= self.num)] = self.num - 1
+            # rounding can make the quotient reach num for a value just below high (it belongs to the last bin), or 0
+            # for a value just below low (it went to underflow and belongs to no bin)
+            q[inrange & (q >= self.num)] = self.num - 1
+            q[~inrange] = -1
 
             for index, value in enumerate(self.values):
                 np.not_equal(q, index, selection)
